@@ -1,7 +1,9 @@
 // C17 — shared objects are safe for concurrent use and requests do not interfere.
 //
 // Monitor: child processes built with the race detector run (a) one handler + one restli.Client shared by 8..64
-// goroutines executing a list of requests that each carry a unique token, once serially and then concurrently;
+// goroutines executing a list of requests that each carry a unique token, once serially and then concurrently (over
+// loopback sockets and over an in-process transport; on warm and on cold handlers; with and without registrations going
+// on at the Server the handler was taken from);
 // (b) the D2 resolver resolving from many goroutines while the library's own update loop consumes announcement
 // events; (c) the custom-typeref registry used and extended concurrently (v2).  The parent collects the race
 // detector's reports (deduplicated by the innermost library functions of the two accesses) and the children's
@@ -23,6 +25,7 @@ import (
 	"strings"
 	"sync"
 	"sync/atomic"
+	"time"
 
 	"github.com/PapaCharlie/go-restli/v2/fnv1a"
 	"github.com/PapaCharlie/go-restli/v2/restlicodec"
@@ -76,105 +79,206 @@ type world interface {
 	Close()
 }
 
-func httpChild(gen, mounting string, seed int64, n int) *childReport {
-	rep := &childReport{Gen: gen, Workload: "http-" + mounting, Shapes: map[string]int{}}
-	type rec = map[string]any
+type rec = map[string]any
+
+type reqInfo struct{ token, kind, outcome string }
+
+// handle is one world (handler + shared client) of either generation.
+type handle struct {
+	infos   []reqInfo
+	execute func(g int, s int64) map[string]rec
+	intact  func() string
+	late    func(i int) string
+	close   func()
+}
+
+func openWorld(gen, mounting string, seed int64, n int) (*handle, error) {
 	toAny := func(v any) rec {
 		b, _ := json.Marshal(v)
 		var m rec
 		_ = json.Unmarshal(b, &m)
 		return m
 	}
-	type reqInfo struct{ token, kind, outcome string }
-	var infos []reqInfo
-	var execute func(g int, s int64) map[string]rec
-	var intact func() string
-	var closer func()
+	h := &handle{}
 	if gen == "v2" {
 		reqs := c17g2.Cases(seed, n)
 		w, err := c17g2.NewWorld(reqs, mounting)
 		if err != nil {
-			rep.Problem = err.Error()
-			return rep
+			return nil, err
 		}
-		closer = w.Close
+		h.close, h.late, h.intact = w.Close, w.LateRegister, c17g2.SharedErrorsIntact
 		for _, r := range reqs {
-			infos = append(infos, reqInfo{r.Token, r.Kind, r.Outcome})
+			h.infos = append(h.infos, reqInfo{r.Token, r.Kind, r.Outcome})
 		}
-		execute = func(g int, s int64) map[string]rec {
+		h.execute = func(g int, s int64) map[string]rec {
 			out := map[string]rec{}
 			for k, v := range w.Execute(reqs, g, s) {
 				out[k] = toAny(v)
 			}
 			return out
 		}
-		intact = c17g2.SharedErrorsIntact
 	} else {
 		reqs := c17g1.Cases(seed, n)
 		w, err := c17g1.NewWorld(reqs, mounting)
 		if err != nil {
-			rep.Problem = err.Error()
-			return rep
+			return nil, err
 		}
-		closer = w.Close
+		h.close, h.late, h.intact = w.Close, w.LateRegister, c17g1.SharedErrorsIntact
 		for _, r := range reqs {
-			infos = append(infos, reqInfo{r.Token, r.Kind, r.Outcome})
+			h.infos = append(h.infos, reqInfo{r.Token, r.Kind, r.Outcome})
 		}
-		execute = func(g int, s int64) map[string]rec {
+		h.execute = func(g int, s int64) map[string]rec {
 			out := map[string]rec{}
 			for k, v := range w.Execute(reqs, g, s) {
 				out[k] = toAny(v)
 			}
 			return out
 		}
-		intact = c17g1.SharedErrorsIntact
 	}
-	defer closer()
-	add := func(m mismatch) {
-		if len(rep.Mismatches) < 12 {
-			rep.Mismatches = append(rep.Mismatches, m)
-		}
+	return h, nil
+}
+
+func (rep *childReport) add(m mismatch) {
+	if len(rep.Mismatches) < 12 {
+		rep.Mismatches = append(rep.Mismatches, m)
 	}
-	leaks := func(g int, obs map[string]rec) {
-		for _, in := range infos {
-			b, _ := json.Marshal(obs[in.token])
-			for _, t := range tokenRe.FindAllString(string(b), -1) {
-				if t != in.token {
-					add(mismatch{What: "foreign-token", Token: in.token, Kind: in.kind, Outcome: in.outcome, Goroutines: g, Concurrent: obs[in.token], Detail: "token " + t + " of another request"})
-					break
-				}
+}
+
+// leaks looks for another request's token, or another resource's path, in what a request observed.
+func (rep *childReport) leaks(h *handle, g int, obs map[string]rec) {
+	for _, in := range h.infos {
+		b, _ := json.Marshal(obs[in.token])
+		for _, t := range tokenRe.FindAllString(string(b), -1) {
+			if t != in.token {
+				rep.add(mismatch{What: "foreign-token", Token: in.token, Kind: in.kind, Outcome: in.outcome, Goroutines: g, Concurrent: obs[in.token], Detail: "token " + t + " of another request"})
+				break
 			}
 		}
-		for k, v := range obs {
-			if strings.HasPrefix(k, "?") {
-				add(mismatch{What: "unattributed-observation", Token: k, Goroutines: g, Concurrent: v})
-			}
+		if strings.Contains(string(b), "WRONG-SEGMENTS") {
+			rep.add(mismatch{What: "filter-saw-another-resource-path", Token: in.token, Kind: in.kind, Outcome: in.outcome, Goroutines: g, Concurrent: obs[in.token]})
 		}
 	}
-	serial := execute(1, seed)
-	rep.Requests += len(infos)
-	leaks(1, serial)
-	for _, in := range infos {
+	for k, v := range obs {
+		if strings.HasPrefix(k, "?") {
+			rep.add(mismatch{What: "unattributed-observation", Token: k, Goroutines: g, Concurrent: v})
+		}
+	}
+}
+
+func (rep *childReport) compare(h *handle, g int, serial, conc map[string]rec) {
+	for _, in := range h.infos {
+		a, _ := json.Marshal(serial[in.token])
+		b, _ := json.Marshal(conc[in.token])
+		rep.Compared++
+		rep.Shapes[in.kind+"|"+in.outcome]++
+		if string(a) != string(b) {
+			rep.add(mismatch{What: "differs-from-serial", Token: in.token, Kind: in.kind, Outcome: in.outcome, Goroutines: g, Serial: serial[in.token], Concurrent: conc[in.token]})
+		}
+	}
+}
+
+func (rep *childReport) serialSane(h *handle, serial map[string]rec) {
+	for _, in := range h.infos {
 		if s := serial[in.token]; s == nil || len(s) == 0 {
-			add(mismatch{What: "no-serial-observation", Token: in.token, Kind: in.kind, Outcome: in.outcome, Goroutines: 1})
+			rep.add(mismatch{What: "no-serial-observation", Token: in.token, Kind: in.kind, Outcome: in.outcome, Goroutines: 1})
 		}
 	}
+}
+
+// httpChild: one world, the request list serially and then with 8, 32 and 64 goroutines.
+func httpChild(gen, mounting string, seed int64, n int) *childReport {
+	rep := &childReport{Gen: gen, Workload: "http-" + mounting, Shapes: map[string]int{}}
+	h, err := openWorld(gen, mounting, seed, n)
+	if err != nil {
+		rep.Problem = err.Error()
+		return rep
+	}
+	defer h.close()
+	serial := h.execute(1, seed)
+	rep.Requests += len(h.infos)
+	rep.leaks(h, 1, serial)
+	rep.serialSane(h, serial)
 	for gi, g := range []int{8, 32, 64} {
-		conc := execute(g, seed+int64(gi)+1)
-		rep.Requests += len(infos)
-		leaks(g, conc)
-		for _, in := range infos {
-			a, _ := json.Marshal(serial[in.token])
-			b, _ := json.Marshal(conc[in.token])
-			rep.Compared++
-			rep.Shapes[in.kind+"|"+in.outcome]++
-			if string(a) != string(b) {
-				add(mismatch{What: "differs-from-serial", Token: in.token, Kind: in.kind, Outcome: in.outcome, Goroutines: g, Serial: serial[in.token], Concurrent: conc[in.token]})
-			}
-		}
+		conc := h.execute(g, seed+int64(gi)+1)
+		rep.Requests += len(h.infos)
+		rep.leaks(h, g, conc)
+		rep.compare(h, g, serial, conc)
 	}
-	if d := intact(); d != "" {
-		add(mismatch{What: "shared-error-object-modified", Detail: d})
+	if d := h.intact(); d != "" {
+		rep.add(mismatch{What: "shared-error-object-modified", Detail: d})
+	}
+	return rep
+}
+
+// coldChild: many fresh handlers; the very first requests a handler ever sees arrive concurrently (in process, no
+// socket in between), the serial execution follows on the same handler.
+func coldChild(gen string, seed int64, n int) *childReport {
+	rep := &childReport{Gen: gen, Workload: "http-cold", Shapes: map[string]int{}}
+	const perRound = 48
+	for round := 0; round*perRound < n; round++ {
+		h, err := openWorld(gen, "inproc", seed+int64(round)*7919, perRound)
+		if err != nil {
+			rep.Problem = err.Error()
+			return rep
+		}
+		g := []int{16, 48, 8}[round%3]
+		conc := h.execute(g, seed+int64(round))
+		serial := h.execute(1, seed)
+		rep.Requests += 2 * len(h.infos)
+		rep.leaks(h, g, conc)
+		rep.leaks(h, 1, serial)
+		rep.serialSane(h, serial)
+		rep.compare(h, g, serial, conc)
+		rep.Shapes["cold-handlers"]++
+		if d := h.intact(); d != "" {
+			rep.add(mismatch{What: "shared-error-object-modified", Detail: d})
+		}
+		h.close()
+	}
+	return rep
+}
+
+// lateChild: the Server keeps being extended (finders and actions on resources the handler already knows) while the
+// handler taken from it earlier serves requests.
+func lateChild(gen, mounting string, seed int64, n int) *childReport {
+	rep := &childReport{Gen: gen, Workload: "http-late-" + mounting, Shapes: map[string]int{}}
+	h, err := openWorld(gen, mounting, seed, n)
+	if err != nil {
+		rep.Problem = err.Error()
+		return rep
+	}
+	defer h.close()
+	serial := h.execute(1, seed)
+	rep.Requests += len(h.infos)
+	rep.leaks(h, 1, serial)
+	rep.serialSane(h, serial)
+	next := 0
+	for gi, g := range []int{8, 32} {
+		stop := make(chan struct{})
+		done := make(chan struct{})
+		go func() {
+			defer close(done)
+			for {
+				select {
+				case <-stop:
+					return
+				default:
+				}
+				if p := h.late(next); p != "" {
+					rep.Problem = "late registration failed: " + p
+					return
+				}
+				next++
+				rep.Shapes["late-registrations"]++
+				time.Sleep(200 * time.Microsecond)
+			}
+		}()
+		conc := h.execute(g, seed+int64(gi)+1)
+		close(stop)
+		<-done
+		rep.Requests += len(h.infos)
+		rep.leaks(h, g, conc)
+		rep.compare(h, g, serial, conc)
 	}
 	return rep
 }
@@ -362,6 +466,14 @@ func child(args []string) {
 		rep = httpChild(gen, "bare", seed, n)
 	case "http-prefixed":
 		rep = httpChild(gen, "prefixed", seed, n)
+	case "http-inproc":
+		rep = httpChild(gen, "inproc", seed, n)
+	case "http-cold":
+		rep = coldChild(gen, seed, n)
+	case "http-late-bare":
+		rep = lateChild(gen, "bare", seed, n)
+	case "http-late-inproc":
+		rep = lateChild(gen, "inproc", seed, n)
 	case "d2":
 		rep = d2Child(gen, seed, n)
 	case "typeref-registry":
@@ -384,7 +496,7 @@ func main() {
 		return
 	}
 	run := ev.Start("C17")
-	run.Rule("execution = (generation, workload, GOMAXPROCS, repetition) in a child process under the race detector. http workloads: a seeded list of requests (15 request kinds x 7 outcomes, unique token in key, parameter, header and body; one handler with three filters, one shared restli.Client with a tunnelling threshold) executed serially, then with 8, 32 and 64 goroutines with injected yields/sleeps; per request the invocation(s) seen by resource code, pre-request filter events, status, error / id / location headers, body (stack trace removed), client result and error must equal the serial execution and contain no other request's token; shared error objects must be unchanged. d2: 16 goroutines resolve while the library's update loop consumes announcements (a permanent host keeps every snapshot resolvable). typeref-registry (v2): 16 goroutines marshal/unmarshal/hash registered custom typerefs while 6 more types register. Any race report whose access stacks pass through go-restli code is a violation, deduplicated by the innermost library functions. distinct = (generation, workload, request kind|outcome) compared + executions")
+	run.Rule("execution = (generation, workload, GOMAXPROCS, repetition) in a child process under the race detector. http workloads: a seeded list of requests (15 request kinds x 7 outcomes, unique token in key, parameter, header and body; one handler with three filters, one shared restli.Client with a tunnelling threshold) executed serially, then with 8, 32 and 64 goroutines with injected yields/sleeps; per request the invocation(s) seen by resource code, pre-request filter events, status, error / id / location headers, body (stack trace removed), client result and error must equal the serial execution and contain no other request's token; shared error objects must be unchanged. http-inproc: the same over an in-process transport (no socket, hence no synchronisation other than the library's own between requests). http-cold: fresh handlers whose very first requests arrive concurrently (48 requests, 8-48 goroutines, in process), the serial execution follows on the same handler. http-late-*: the handler serves while the Server it was taken from keeps registering finders and actions on resources the handler already knows. Every pre-request filter event must name the resource path chain of its own request (two sibling leaves at nesting depth 4 included). d2: 16 goroutines resolve while the library's update loop consumes announcements (a permanent host keeps every snapshot resolvable). typeref-registry (v2): 16 goroutines marshal/unmarshal/hash registered custom typerefs while 6 more types register. Any race report whose access stacks pass through go-restli code is a violation, deduplicated by the innermost library functions. distinct = (generation, workload, request kind|outcome) compared + executions")
 	run.Assume("only accesses that executed under the detector are covered; the scheduler chooses the interleavings (GOMAXPROCS 2/4/16, random yields)")
 	self, _ := os.Executable()
 	dir := filepath.Join(os.Getenv("VERIF_WORK_DIR"), "race-c17")
@@ -398,7 +510,8 @@ func main() {
 	}
 	var jobs []job
 	for _, gen := range []string{"v2", "root"} {
-		jobs = append(jobs, job{gen, "http-bare", run.Pick(300, 1500)}, job{gen, "http-prefixed", run.Pick(150, 800)}, job{gen, "d2", run.Pick(3000, 30000)})
+		jobs = append(jobs, job{gen, "http-bare", run.Pick(300, 1500)}, job{gen, "http-prefixed", run.Pick(150, 800)}, job{gen, "d2", run.Pick(3000, 30000)},
+			job{gen, "http-inproc", run.Pick(300, 1500)}, job{gen, "http-cold", run.Pick(480, 4800)}, job{gen, "http-late-bare", run.Pick(200, 1000)}, job{gen, "http-late-inproc", run.Pick(200, 1000)})
 	}
 	jobs = append(jobs, job{"v2", "typeref-registry", run.Pick(2000, 20000)})
 	reps := run.Pick(2, 6)
@@ -478,6 +591,10 @@ func main() {
 	run.Require("executions", int64(len(jobs)))
 	run.Require("v2/http-bare.requests", 500)
 	run.Require("root/http-bare.requests", 500)
+	run.Require("v2/http-cold.requests", 500)
+	run.Require("root/http-cold.requests", 500)
+	run.Require("v2/http-late-inproc.requests", 300)
+	run.Require("root/http-late-inproc.requests", 300)
 	run.Require("v2/d2.requests", 500)
 	run.Require("root/d2.requests", 500)
 	run.Finish()
